@@ -1,8 +1,44 @@
-"""Correspondence: model of util.Registry (driver op reg.run) vs the real class, observation by observation."""
+"""Correspondence: model of util.Registry (driver op reg.run) vs the real class, observation by observation.
+
+Priorities: any mutually comparable numbers.  The line protocol carries the integer 2*p in decimal (Lean `Int` is
+unbounded, the model compares exactly), so every generated priority is a half-integer, of ANY magnitude and numeric type:
+small ints/floats (PRIOS), and - in about 40 % of the histories - a "wide" pool: ints around 2**53, 2**63, 2**64, 10**20
+whose neighbours differ only in bits a float cannot hold, floats equal to such ints (a genuine tie), and half-integers
+written as `fractions.Fraction` or `decimal.Decimal` that no float represents.  Fraction and Decimal do not compare with
+each other in Python, so a history uses one of the two families only.  A registry that stored or compared an
+approximation of the priority (float(p), int(p), round) is seen as a wrong order or a wrong priority in a slice.
+"""
+from decimal import Decimal
+from fractions import Fraction
 import markdown.util as U
 
 NAMES = ['a', 'b', 'c', 'd', 'e', 'f']
 PRIOS = [-2, -1, -0.5, 0, 0.5, 1, 2, 10]     # exact binary fractions; sent as 2*p
+B53, B63, B64, T20 = 2 ** 53, 2 ** 63, 2 ** 64, 10 ** 20
+BIG_INTS = [B53 - 1, B53, B53 + 1, B53 + 2, B53 + 3, -B53, -B53 - 1, -B53 - 2, B63 - 1, B63, B63 + 1, -B63, -B63 - 1, B64, B64 + 1, -B64 - 1,
+            T20, T20 + 1, T20 - 1, -T20 - 1, 3 * B53 + 1, 3 * B53 + 2]
+BIG_FLOATS = [float(B53), float(-B53), float(B53 - 1), float(B64), 1e20, -1e20, 2251799813685248.5]   # all exact (2**51 + 0.5); float(B53) ties with the int B53
+BIG_FRACS = [Fraction(2 * B53 + 1, 2), Fraction(2 * B53 - 1, 2), Fraction(-2 * B53 - 1, 2), Fraction(B53 + 1), Fraction(2 * B64 + 1, 2), Fraction(1, 2), Fraction(3, 2),
+             Fraction(-1, 2), Fraction(2 * T20 + 1, 2)]
+BIG_DECS = [Decimal(B53 + 1), Decimal(B53), Decimal('9007199254740992.5'), Decimal('-9007199254740992.5'), Decimal('9007199254740991.5'), Decimal(B64 + 1), Decimal('0.5'),
+            Decimal('1.5'), Decimal('-0.5'), Decimal('100000000000000000000.5'), Decimal('1E+20')]
+FAMILIES = {'int': BIG_INTS, 'float': BIG_INTS + BIG_FLOATS, 'frac': BIG_INTS + BIG_FLOATS + BIG_FRACS * 2, 'dec': BIG_INTS + BIG_FLOATS + BIG_DECS * 2}
+
+
+def prio2(p):
+    """the integer 2*p, exactly, for an int / float / Fraction / Decimal half-integer"""
+    f = Fraction(p) * 2
+    if f.denominator != 1: raise ValueError('priority %r is not a half-integer' % (p,))
+    return int(f)
+
+
+def wide_prios(rng):
+    """a pool of 3-8 priorities of one numeric family with close neighbours at large magnitudes, plus a few small ones"""
+    fam = FAMILIES[rng.choice(['int', 'int', 'float', 'frac', 'dec'])]
+    base = rng.choice(fam)
+    near = [x for x in fam if abs(Fraction(x) - Fraction(base)) <= 4]           # neighbours below float resolution
+    pool = rng.sample(near, min(len(near), rng.randint(2, 4))) + rng.sample(fam, rng.randint(1, 3)) + rng.sample(PRIOS, rng.randint(0, 2))
+    return pool
 
 
 class Item:
@@ -16,6 +52,7 @@ def gen_history(rng, maxlen=40, names=NAMES, prios=PRIOS):
     ops = []
     k = rng.randint(1, maxlen)
     item = 0
+    if prios is PRIOS and rng.random() < 0.4: prios = wide_prios(rng)
     for _ in range(k):
         r = rng.random()
         if r < 0.40:
@@ -37,7 +74,7 @@ def gen_history(rng, maxlen=40, names=NAMES, prios=PRIOS):
 
 def enc_op(op):
     k = op[0]
-    if k == 'R': return 'R:%d:%s:%d' % (op[1], op[2], int(op[3] * 2))
+    if k == 'R': return 'R:%d:%s:%d' % (op[1], op[2], prio2(op[3]))
     if k == 'D': return 'D:%s:%d' % (op[1], 1 if op[2] else 0)
     if k in 'IL' and len(op) == 1: return k
     if k == 'GS': return 'GS:' + ':'.join('N' if x is None else str(x) for x in op[1:])
@@ -65,7 +102,7 @@ def run_real(ops):
             elif k == 'GS':
                 s = r[slice(op[1], op[2], op[3])]
                 s._sort()
-                o = 'sl:' + ','.join('%s/%d/%d' % (p.name, int(p.priority * 2), s[p.name].n) for p in s._priority)
+                o = 'sl:' + ','.join('%s/%d/%d' % (p.name, prio2(p.priority), s[p.name].n) for p in s._priority)
             elif k == 'IX': o = 'n:%d' % r.get_index_for_name(op[1])
         except ValueError: o = 'e:V'
         except KeyError: o = 'e:K'
@@ -74,14 +111,34 @@ def run_real(ops):
     return '|'.join(obs)
 
 
+CLOSE_PAIRS = [(B53, B53 + 1), (B53 + 1, B53 + 2), (-B53 - 1, -B53), (B64, B64 + 1), (T20, T20 + 1), (B63 - 1, B63), (float(B53), B53 + 1), (-B53 - 1, float(-B53)),
+               (B53, Fraction(2 * B53 + 1, 2)), (Fraction(2 * B53 + 1, 2), B53 + 1), (Decimal(B53), Decimal('9007199254740992.5')), (Decimal(B53), Decimal(B53 + 1)),
+               (Fraction(-2 * B53 - 1, 2), -B53), (0.5, 1), (-1, -0.5)]
+
+
+def close_pair_histories():
+    """deterministic: for each pair lo < hi of neighbouring priorities, both registration orders (and a replacement), fully observed"""
+    obs = [('I',), ('GS', None, None, None), ('IX', 'a'), ('IX', 'b'), ('GI', 0), ('GI', -1)]
+    out = []
+    for lo, hi in CLOSE_PAIRS:
+        out.append([('R', 1, 'a', lo), ('R', 2, 'b', hi)] + obs)
+        out.append([('R', 1, 'a', hi), ('R', 2, 'b', lo)] + obs)
+        out.append([('R', 1, 'a', lo), ('R', 2, 'b', lo), ('R', 3, 'c', hi), ('R', 4, 'a', hi)] + obs + [('D', 'c', True)] + obs)
+    return out
+
+
+def is_wide(ops):
+    """some registered priority is beyond float-exact range or not a float/int at all"""
+    return any(o[0] == 'R' and (not isinstance(o[3], (int, float)) or abs(o[3]) > B53) for o in ops)
+
+
 def nontrivial(ops):
     regs = [o for o in ops if o[0] == 'R']
     return len(regs) >= 2 and any(o[0] not in 'RD' for o in ops)
 
 
 def run(driver, rng, n, op='reg.run'):
-    hist = [gen_history(rng) for _ in range(n)]
-    # exhaustive short histories over 2 names x 2 priorities for small n-independent core
+    hist = [gen_history(rng) for _ in range(n)] + close_pair_histories()
     reqs = [(op,) + tuple(enc_op(o) for o in h) for h in hist]
     ans = driver.ask_many(reqs)
     dis = []; seen = set(); dist = {}
@@ -92,5 +149,6 @@ def run(driver, rng, n, op='reg.run'):
         if real != a:
             dis.append({'op': op, 'input': [enc_op(o) for o in h], 'model': a, 'impl': real})
     dist['err_obs'] = sum(a.count('e:') for a in ans)
+    dist['wide_priority_histories'] = sum(1 for h in hist if is_wide(h))
     return {'cases': len(hist), 'distinct': len(seen), 'disagreements': dis,
             'samples': [{'history': [enc_op(o) for o in hist[0]], 'observations': ans[0]}], 'dist': dist}
